@@ -140,6 +140,46 @@ def none_changes(quick):
     return viol, n
 
 
+def dict_changes(quick):
+    """clone(**changes) with a non-empty dict-valued change must leave the original's parameters (deep comparison) and its
+    later recomputations untouched"""
+    realfuzz.init()
+    viol, n = [], 0
+    cases = [("MassFunction", "hmf_params", {"hmf_model": "SMT", "hmf_params": {"a": 0.8}}, {"p": 0.25}),
+             ("MassFunction", "cosmo_params", {"cosmo_params": {"Om0": 0.3}}, {"H0": 75.0}),
+             ("Transfer", "transfer_params", {"transfer_model": "EH"}, {"use_sugiyama_baryons": True}),
+             ("Transfer", "growth_params", {}, {"dlna": 0.02}),
+             ("MassFunctionWDM", "wdm_params", {}, {"mu": 1.2}),
+             ("Cosmology", "cosmo_params", {}, {"Om0": 0.25})]
+    with warnings.catch_warnings():
+        warnings.simplefilter("ignore")
+        np.seterr(all="ignore")
+        for cn, k, extra, change in cases:
+            cls = realfuzz.class_by_name(cn)
+            o = cls(**dict(copy.deepcopy(realfuzz.BASE[cn]), **copy.deepcopy(extra)))
+            qs = [q for q in ("dndm", "power", "mean_density0") if q in realfuzz.quantities(cls)][:1]
+            for q in qs:
+                realfuzz.read(o, q)
+            before = realfuzz.canon(o.parameter_values)
+            c = o.clone(**{k: copy.deepcopy(change)})
+            n += 1
+            script = [f"o = {cn}(**{dict(realfuzz.BASE[cn], **extra)})", f"c = o.clone({k}={change})", "o.parameter_values", "o.update(<another parameter>)", f"o.{qs[0]}"]
+            if realfuzz.canon(o.parameter_values) != before:
+                viol.append({"key": f"{cn}/clone-dict-change/{k}/original-params", "what": f"{cn}: clone({k}={change}) changed the original's {k} to {realfuzz.show(o.parameter_values[k])}",
+                             "replay": {"kind": "c15", "script": script}})
+                continue
+            # force the original to recompute, compare with a fresh object
+            try:
+                o.update(**({"z": 0.5} if cn != "Cosmology" else {"cosmo_params": {"Tcmb0": 2.7}}))
+                fo = realfuzz.fresh_from(o)
+                if realfuzz.read(o, qs[0]) != realfuzz.read(fo, qs[0]):
+                    viol.append({"key": f"{cn}/clone-dict-change/{k}/original-output", "what": f"{cn}: after clone({k}={change}) the original's recomputed {qs[0]} differs from a fresh object's",
+                                 "replay": {"kind": "c15", "script": script}})
+            except Exception as e:
+                viol.append({"key": f"{cn}/clone-dict-change/{k}/raises", "what": f"{cn}: original unusable after clone({k}={change}): {type(e).__name__}: {e}", "replay": {"kind": "c15", "script": script}})
+    return viol, n
+
+
 def camb_user_params(quick):
     """CAMB transfer with a user-supplied CAMBparams: copy, change the copy's cosmology and read it, then force the
     original to recompute; both must equal fresh objects"""
@@ -201,7 +241,7 @@ def run(ctx):
             if not any(y["key"] == x["key"] for y in out["violations"]):
                 x["replay"] = {"kind": "c15", "script": script, "cls": cn, "camb": camb}
                 out["violations"].append(x)
-    for fn in (none_changes, camb_user_params):
+    for fn in (none_changes, dict_changes, camb_user_params):
         v, k = fn(quick)
         n += k
         for x in v:
